@@ -4,11 +4,11 @@
 //! the hosts, so it survives crashes), membership snapshots, wall-clock skew and the fault events.
 
 pub mod c01;
-// pub mod c06;
-// pub mod c12;
-// pub mod c13;
-// pub mod c14;
-// pub mod c19;
+pub mod c06;
+pub mod c12;
+pub mod c13;
+pub mod c14;
+pub mod c19;
 
 use std::cell::RefCell;
 use std::collections::{BTreeMap, BTreeSet};
@@ -100,6 +100,11 @@ pub struct OpRecord {
     pub holders_at_return: Option<usize>,
     pub holder_ids_at_return: Vec<u8>,
     pub view_at_return: Vec<u8>,
+    /// the issuer's store had no write of its own for this call, but holds some row for every id
+    /// (the call was a no-op because something newer was already stored)
+    pub superseded_locally: bool,
+    /// more than one own write matches this call (concurrent identical deletes): timestamp unknown
+    pub ambiguous: bool,
 }
 
 #[derive(Clone, Debug)]
@@ -122,6 +127,8 @@ pub struct Shared {
     pub boots: BTreeMap<u8, u32>,
     /// current membership view handed to each node (ids)
     pub views: BTreeMap<u8, BTreeSet<u8>>,
+    /// (sim ms, view) history per node, for oracles that must tolerate in-flight view changes
+    pub views_hist: BTreeMap<u8, Vec<(u64, BTreeSet<u8>)>>,
     pub log: Fnv,
     pub replays_sent: u64,
     pub replay_errors: u64,
@@ -179,6 +186,7 @@ impl<'a> Cluster<'a> {
             repairs: Vec::new(),
             boots: BTreeMap::new(),
             views: BTreeMap::new(),
+            views_hist: BTreeMap::new(),
             log: Fnv::new(),
             replays_sent: 0,
             replay_errors: 0,
@@ -270,6 +278,8 @@ impl<'a> Cluster<'a> {
         }
         let mut v = members.clone();
         v.insert(node);
+        let now = self.sim.elapsed().as_millis() as u64;
+        sh.views_hist.entry(node).or_default().push((now, v.clone()));
         sh.views.insert(node, v);
         if let Some(tx) = sh.member_tx.get(&node) {
             let _ = tx.send(m);
@@ -406,8 +416,11 @@ async fn run_op(sh: &SharedRef, node: u8, h: &ReplicatedStoreHandle<SimStorage>,
             holders_at_return: None,
             holder_ids_at_return: vec![],
             view_at_return: view,
+            superseded_locally: false,
+            ambiguous: false,
         });
     }
+    let calls_at_invoke = sh.borrow().stores[&node].st.lock().calls.len();
     let level = level_of(&spec.level);
     let res = match spec.kind.as_str() {
         "put" => h.put(&spec.ks, spec.ids[0], value_for(node, op_id, spec.ids[0]), level).await,
@@ -425,18 +438,33 @@ async fn run_op(sh: &SharedRef, node: u8, h: &ReplicatedStoreHandle<SimStorage>,
         Err(e) => format!("other:{e}"),
     };
     let mut s = sh.borrow_mut();
-    // the operation's timestamp: the newest write by this node to the first id, in its own store
+    // the operation's timestamp: the own-store write of this very call (issued after the call was
+    // invoked, by this node, same kind, same ids, and - for puts - this call's unique payload)
     let is_del = spec.kind.starts_with("del");
     let own = s.stores[&node].clone();
-    let ts = {
+    let want_kind = match spec.kind.as_str() {
+        "put" => "put",
+        "put_many" => "multi_put",
+        "del" => "mark_as_tombstone",
+        _ => "mark_many_as_tombstone",
+    };
+    let (ts, ambiguous, superseded) = {
         let st = own.st.lock();
-        st.calls
+        let cands: Vec<HLCTimestamp> = st
+            .calls
             .iter()
-            .rev()
-            .filter(|c| c.keyspace == spec.ks && c.applied > 0)
-            .flat_map(|c| c.items.iter().take(c.applied).copied().collect::<Vec<_>>())
-            .find(|(k, t)| spec.ids.contains(k) && t.node() == node)
-            .map(|x| x.1)
+            .skip(calls_at_invoke)
+            .filter(|c| c.keyspace == spec.ks && c.kind == want_kind && c.applied > 0)
+            .filter(|c| c.items.iter().all(|(k, t)| spec.ids.contains(k) && t.node() == node))
+            .filter(|c| is_del || c.items.iter().zip(c.datas.iter()).all(|((k, _), d)| d.as_deref() == Some(value_for(node, op_id, *k).as_slice())))
+            .filter_map(|c| c.items.first().map(|x| x.1))
+            .collect();
+        let sup = spec.ids.iter().all(|id| st.rows.get(&spec.ks).and_then(|m| m.get(id)).is_some());
+        match cands.len() {
+            0 => (None, false, sup),
+            1 => (Some(cands[0]), false, false),
+            _ => (None, true, false),
+        }
     };
     let mut holders: Vec<u8> = Vec::new();
     if let Some(ts) = ts {
@@ -462,6 +490,8 @@ async fn run_op(sh: &SharedRef, node: u8, h: &ReplicatedStoreHandle<SimStorage>,
         r.holders_at_return = Some(holders.len());
         r.holder_ids_at_return = holders;
         r.view_at_return = view;
+        r.superseded_locally = superseded;
+        r.ambiguous = ambiguous;
     }
 }
 
